@@ -108,7 +108,7 @@ pub fn configs(tier: Tier) -> Vec<Cfg> {
     // parameter-set lengths): add_track of every track, then short sample sequences
     for (gi, m) in config_grid().into_iter().enumerate() {
         let mut al: Vec<Call> = (0..m.tracks.len()).map(Call::Add).collect();
-        al.extend(sample_ops(&[1], &[1], &[m.tracks[0].timescale], &[0]));
+        al.extend(sample_ops(&[1], &[1, 3], &[m.tracks[0].timescale], &[0]));
         if m.tracks.len() > 1 {
             al.extend(sample_ops(&[2], &[0], &[1024], &[0]));
         }
@@ -329,6 +329,18 @@ fn merge(a: &mut Local, b: Local) {
 
 /// The exploration of one build profile (runs in the current binary).
 pub fn explore_profile(tier: Tier, seed: u64) -> (Local, Vec<Value>) {
+    let (mut l0, v0) = explore_profile_inner(tier, seed);
+    // sequences in which the stream failed once: the failed call returns an error (C10); no LATER call may panic
+    let (n, bad) = crate::props::c10::calls_after_stream_failure(tier, seed);
+    l0.evaluations += n;
+    l0.outcomes.entry("after_stream_failure:cases".into()).and_modify(|x| *x += n).or_insert(n);
+    for b in bad {
+        l0.violations.push(Violation::new("C17", "call_after_stream_failure_panicked", b));
+    }
+    (l0, v0)
+}
+
+fn explore_profile_inner(tier: Tier, seed: u64) -> (Local, Vec<Value>) {
     let mut l = Local::default();
     let mut fams = vec![];
     for cfg in configs(tier) {
